@@ -45,6 +45,17 @@ fn main() {
             let budget: f64 = args.get(9).and_then(|s| s.parse().ok()).unwrap_or(60.0);
             vharness::iface::install_panic_hook();
             let mut ctx = Ctx::new(prop, tier, seed, shard, nshards, variant, &out, budget);
+            // every second worker process makes its very first library call in single precision, the others in double
+            // precision: anything a process fixes at first use (a lazily initialised static, say) must not depend on that
+            if shard % 2 == 1 && variant != "miri" {
+                let sq = |x: f64| -> vharness::geom::MP { vec![vec![vharness::gen::rect_ring(x, x, x + 2.0, x + 2.0)]] };
+                let first = vharness::iface::run_op::<f32>(&sq(0.0), &sq(1.0), vharness::geom::Op::Intersection, vharness::iface::Pairing::MM);
+                ctx.cnt("worker_processes_whose_first_library_call_was_f32", 1);
+                if first.map(|r| r.len()).unwrap_or(0) != 1 {
+                    ctx.notes.push("HARNESS-ERROR the f32 warm-up operation did not return one polygon".into());
+                    ctx.cnt("harness_errors", 1);
+                }
+            }
             props::worker(&mut ctx);
             ctx.finish();
         }
